@@ -22,6 +22,7 @@ import base64
 import re
 
 from .. import coqterm as T
+from .C18_strings import B
 
 CHECKERS = ['Wire/CmdLineCheck']
 HEADER = ('From PV Require Import Base.Prelude Wire.Lex Wire.Strings Wire.StringsCheck '
@@ -86,14 +87,14 @@ def enc_cmd(cmd) -> str | None:
     word = cmd.command
     if word not in MODELLED:
         return None
-    tag = T.bytes_(cmd.tag)
+    tag = B(cmd.tag)
     if word == b'LOGIN':
-        args = [f'(VStr {T.bytes_(cmd.userid)})', f'(VStr {T.bytes_(cmd.password)})']
+        args = [f'(VStr {B(cmd.userid)})', f'(VStr {B(cmd.password)})']
     elif MODELLED[word] == 1:
         args = [f'(VMbox {T.codepoints(cmd.mailbox)})']
     else:
         args = []
-    return f'(Cmd {tag} {T.bytes_(word)} {T.lst(args)})'
+    return f'(Cmd {tag} {B(word)} {T.lst(args)})'
 
 
 _REAL = None
@@ -391,7 +392,7 @@ def e2e_monitor(ctx) -> None:
     rng = ctx.rng
     nruns = 0
     ngroups = 0
-    budget = ctx.scale(1200, 8000)
+    budget = ctx.scale(1000, 8000)
     combos = []
     for tpl in TEMPLATES:
         tname, setup, word, args, probes = tpl
@@ -479,7 +480,7 @@ def section(ctx) -> None:
     from pymap.parsing import Space, EndLine
     from pymap.imap import IMAPConnection
     from ..pymap_env import DictEnv, run
-    from .C18_strings import impl_parse, sweep, small_strings, mutate, INTERESTING
+    from .C18_strings import B, impl_parse, sweep, small_strings, mutate, INTERESTING
     rng = ctx.rng
     quick = ctx.quick
     SH = dict(shard=600)
@@ -491,14 +492,14 @@ def section(ctx) -> None:
     c1, c2 = [], []
     for buf in stream:
         r = impl_parse(Space, buf)
-        c1.append(T.pair(T.bytes_(buf), 'None' if r[0] != 'ok' else T.option(T.bytes_(r[2]))))
+        c1.append(T.pair(B(buf), 'None' if r[0] != 'ok' else T.option(B(r[2]))))
         r = impl_parse(EndLine, buf)
-        c2.append(T.pair(T.bytes_(buf), 'None' if r[0] != 'ok' else T.option(T.bytes_(r[2]))))
+        c2.append(T.pair(B(buf), 'None' if r[0] != 'ok' else T.option(B(r[2]))))
         ctx.count(('space', buf))
     for nm, cs, chk in (('space', c1, 'chk_space'), ('endline', c2, 'chk_endline')):
         for i in ctx.run_cases(nm, HEADER, 'bytes * option bytes', cs, chk, **SH)[:5]:
             ctx.disagreement(nm, {'input': stream[i].hex()})
-    lines = small_strings(b'{1+}\r', 5 if quick else 6)
+    lines = small_strings(b'{1+}\r', 4 if quick else 6)
     lines = [x + b'\n' for x in lines] + sweep([b'a {12+}\r\n', b'{3+}\n', b'x{0+}\r\n'], vals_) \
         + [b'', b'{3+}', b'{3+}\r', b'{+}\r\n', b'{3+}\r\r\n', b'{3+}\n\n', b'{12{3+}\r\n']
     lines = list(dict.fromkeys(lines))
@@ -508,7 +509,7 @@ def section(ctx) -> None:
         m = None
         if ln.endswith(b'+}\n') or ln.endswith(b'+}\r\n'):
             m = IMAPConnection._literal_plus.search(ln)
-        cl.append(T.pair(T.bytes_(ln), 'None' if not m else T.option(T.N(int(m.group(1))))))
+        cl.append(T.pair(B(ln), 'None' if not m else T.option(T.N(int(m.group(1))))))
         ctx.count(('litplus', ln), nontrivial=bool(m))
     for i in ctx.run_cases('literal_plus_marker', HEADER, 'bytes * option N', cl, 'chk_litplus', **SH)[:5]:
         ctx.disagreement('literal_plus_marker', {'line': lines[i].hex()})
@@ -524,19 +525,19 @@ def section(ctx) -> None:
                    b'a DELETE &AOk-\r\n', b'a DELETE &AOk\r\n', b'a DELETE &A-\r\n', b'a DELETE inbox\r\n',
                    b'a LOGIN {3}\r\nab', b'a LOGIN {3+}\r\nab', b'a LOGIN u p', b'']
         streams += sweep([b'a LOGIN {1+}\r\nu "p"\r\nb', b'a DELETE {1}\r\nx\r\n'], vals_, not quick)
-        streams += [gen_stream(rng) for _ in range(ctx.scale(1500, 25000))]
+        streams += [gen_stream(rng) for _ in range(ctx.scale(900, 25000))]
         streams = list(dict.fromkeys(streams))
         cr, cc, keep_r, keep_c = [], [], [], []
         for st in streams:
             res = await impl_read_command(config, st)
             if res is None:
-                cr.append(T.pair(T.bytes_(st), 'None'))
+                cr.append(T.pair(B(st), 'None'))
                 keep_r.append(st)
                 ctx.count(('read', st), nontrivial=False)
             else:
                 term = enc_cmd(res[0])
                 if term is not None:
-                    cr.append(T.pair(T.bytes_(st), T.option(T.pair(term, T.bytes_(res[1]), T.N(res[2])))))
+                    cr.append(T.pair(B(st), T.option(T.pair(term, B(res[1]), T.N(res[2])))))
                     keep_r.append(st)
                     ctx.count(('read', st), nontrivial=term != 'CmdInvalid')
             # the first line alone through Commands.parse, with 0/1 continuation
@@ -546,13 +547,13 @@ def section(ctx) -> None:
                 if conts == () or conts[0]:
                     r = impl_commands_parse(config, line, conts)
                     if r[0] == 'need':
-                        cc.append(T.pair(T.lst(T.bytes_(c) for c in conts), T.bytes_(line),
+                        cc.append(T.pair(T.lst(B(c) for c in conts), B(line),
                                          f'(XNeed {T.N(r[1])})'))
                         keep_c.append((line, conts))
                     else:
                         term = enc_cmd(r[1])
                         if term is not None:
-                            cc.append(T.pair(T.lst(T.bytes_(c) for c in conts), T.bytes_(line),
+                            cc.append(T.pair(T.lst(B(c) for c in conts), B(line),
                                              f'(XOk {term} (@nil N) nil)'))
                             keep_c.append((line, conts))
         return cr, cc, keep_r, keep_c
@@ -568,3 +569,28 @@ def section(ctx) -> None:
 
     # --- end-to-end metamorphic monitor
     e2e_monitor(ctx)
+
+
+def replay(ctx, obj) -> bool:
+    from ..pymap_env import run
+    if obj.get('clause') == 'command_spelling':
+        name = 'Foo'
+        v = obj.get('value', '')
+        try:
+            import ast
+            vv = ast.literal_eval(v)
+            if isinstance(vv, str):
+                name = vv
+        except Exception:
+            pass
+        out = []
+        for key in ('line_a', 'line_b'):
+            line = bytes.fromhex(obj[key])
+            res = run(run_sibling(obj.get('setup', []), line, ['list'], ref_mutf7_encode(name)), timeout=20)
+            print(key, line, '->', res[0], res[1])
+            out.append(res[:2])
+        if out[0] != out[1]:
+            ctx.failure('command_spelling', f'siblings still differ: {out!r}', obj,
+                        obj.get('observation', {}))
+        return True
+    return False
